@@ -84,7 +84,25 @@ structure TraceStyle where
   name : String
   installs : Bool              -- `sys.gettrace()` differs inside the `with`
   restores : Bool              -- afterwards (normal and raising exit) it is the pre-installed one again
+  restoresNested : Bool        -- the same when the tracer object is re-entered inside its own `with`
+                               -- (`Sandbox._import` of another student file during a traced execution)
   deriving DecidableEq, Repr
+
+/-- Does one traced execution with this style leave another trace function behind?
+    `nested`: the executed code imported another student file, re-entering the tracer. -/
+def TraceStyle.leaks (st : TraceStyle) (nested : Bool) : Bool :=
+  st.installs && (!st.restores || (nested && !st.restoresNested))
+
+/-- What the translator read from the AST of `Sandbox._import` (import of another student file, reached through
+    the mocked `__import__` while `_execute` is running). -/
+structure ImportDef where
+  reentersTracer : Bool        -- its `exec` sits inside `with self.trace.as_filename(...)`
+  hasHandlers : Bool           -- it contains a `try` statement (a failing import would no longer be just a deeper frame)
+  touchesMocking : Bool        -- it calls `_start_mocking` / `_stop_mocking` / `_stop_patches` / `_capture_exception`
+  deriving DecidableEq, Repr
+
+/-- `_import` leaves failure handling and patching entirely to the `_execute` it runs inside. -/
+def ImportDef.transparent (d : ImportDef) : Bool := !d.hasHandlers && !d.touchesMocking
 
 /-- A blocked / restricted builtin or module and the class of what using it raises. -/
 structure Blocked where
